@@ -52,6 +52,8 @@ JKMNF = "tangelo/toolboxes/qubit_mappings/jkmn.py"
 FROZ = "tangelo/toolboxes/molecular_computation/frozen_orbitals.py"
 POSTS = "tangelo/toolboxes/post_processing/post_selection.py"
 UCCGDF = "tangelo/toolboxes/ansatz_generator/uccgd.py"
+RDMSF = "tangelo/toolboxes/molecular_computation/rdms.py"
+TGSYMPYB = "tangelo/linq/target/target_sympy.py"
 ISP = "tangelo/toolboxes/molecular_computation/integral_solver_pyscf.py"
 
 FIRE = [
@@ -142,6 +144,15 @@ FIRE = [
     ("multiform-operator-shares-terms", "C14", [(MULTI, "        qubit_op.terms = self.terms.copy()", "        qubit_op.terms = self.terms")], "K2.terms-copied"),
     ("multiform-operator-shares-terms-c16", "C16", [(MULTI, "        qubit_op.terms = self.terms.copy()", "        qubit_op.terms = self.terms")], "K2.terms-copied"),
     ("last-n-split-heads-overwritten", "C10", [(POSTS, "        freqs1[meas_other] = freqs1.get(meas_other, 0.) + count", "        freqs1[meas_other] = freqs2.get(meas_other, 0.) + count")], "K9.frequency-split"),
+    ("padding-mixed-block-alpha-twice", "C13", [(RDMSF, "    for i, j in it.product(range(n_occ_a), range(n_occ_b), repeat=1):", "    for i, j in it.product(range(n_occ_a), repeat=2):")], "K10.padding-spin-sorts"),
+    ("dmet-rebuild-by-keywords-drops-charge", "C15", [(DMETF, "            new_molecule = gto.Mole()\n            new_molecule.atom = new_geometry\n            new_molecule.basis = self.molecule.basis\n            new_molecule.ecp = self.molecule.ecp\n            new_molecule.charge = self.molecule.charge\n            new_molecule.spin = self.molecule.spin\n            new_molecule.unit = \"B\"\n            new_molecule.build()", "            new_molecule = gto.M(atom=new_geometry, basis=self.molecule.basis, ecp=self.molecule.ecp, unit=\"B\")")], "K8.rebuild-agreement"),
+    ("oniom-high-level-molecule-reused", "C15", [(ONI, "                self.mol_high = self.get_mol(self.options_high[\"basis\"], solver, self.options_high.get(\"frozen_orbitals\", None))", "                if self.mol_low is not None and self.mol_low.basis == self.options_high[\"basis\"]:\n                    self.mol_high = self.mol_low\n                else:\n                    self.mol_high = self.get_mol(self.options_high[\"basis\"], solver, self.options_high.get(\"frozen_orbitals\", None))")], "K9.oniom-sum"),
+    ("hamiltonian-iadd-narrow-operand-test", "C16", [(OPS, "        if isinstance(other_hamiltonian, of.QubitOperator) and not isinstance(other_hamiltonian, QubitHamiltonian):", "        if isinstance(other_hamiltonian, QubitOperator) and not isinstance(other_hamiltonian, QubitHamiltonian):")], "K6.attr-guard"),
+    ("multiform-compress-conditional-update", "C16", [(MULTI, "            super(QubitOperator, self).compress(abs_tol)\n\n        self._update(n_qubits)", "            super(QubitOperator, self).compress(abs_tol)\n\n        if n_qubits is not None:\n            self._update(n_qubits)")], "K6.resync"),
+    ("ionq-import-folds-angles-to-2pi", "C17", [(TION, "        parameter = gate.get(\"rotation\")\n", "        parameter = gate.get(\"rotation\")\n        if parameter is not None:\n            parameter %= 2 * 3.141592653589793\n")], "K4.roundtrip"),
+    ("cirq-operator-import-real-part", "C17", [(TCIRQ, "        tangelo_op += QubitOperator(term_string.strip(), pauli_word.coefficient)", "        tangelo_op += QubitOperator(term_string.strip(), pauli_word.coefficient.real)")], "K4.operator-roundtrip"),
+    ("sympy-backend-drops-noise-model", "C19", [(TGSYMPYB, "        super().__init__(n_shots, noise_model)", "        super().__init__(n_shots=n_shots)")], "K7.noise-forwarding"),
+    ("noise-validation-by-type-table", "C19", [(NOISE, "        if noise_type == 'pauli' and (not isinstance(noise_params, list) or len(noise_params) != 3):", "        if noise_type == 'pauli' and not isinstance(noise_params, list):")], "K6.noise-validation"),
     # ---- C06
     ("ladder-not-reversed", "C06", [(AU, "    gates += cnot_ladder_gates[::-1]", "    gates += cnot_ladder_gates")], "K9.exp-pauliword"),
     ("negative-angle-offset", "C06", [(AU, "    angle = 2.*coef if coef >= 0. else 4*np.pi+2*coef", "    angle = 2.*coef if coef >= 0. else 2*np.pi+2*coef")], "K9.angle-law"),
@@ -300,6 +311,9 @@ SILENT = [
     ("jkmn-elementwise-after-conversion", "C05", [(JKMNF, "    for i, occ in enumerate(vector):\n        if occ == 1:", "    vector = np.asarray(vector)\n    for i in np.flatnonzero(vector == 1):\n        if True:")]),
     ("clifford-angle-spelling", "C09", [(CLIFF, "isclose(gate.parameter % (2 * pi), value % (2 * pi), abs_tol=abs_tol)), None)", "isclose((gate.parameter - value) % (2 * pi), 0., abs_tol=abs_tol) or isclose((gate.parameter - value) % (2 * pi), 2 * pi, abs_tol=abs_tol)), None)")]),
     ("frozen-partition-spelling", "C04", [(FROZ, "            frozen_occupied.append([i for i in frozen_orbitals[e] if i in occupied[e]])", "            occ_e = set(occupied[e])\n            frozen_occupied.append([i for i in frozen_orbitals[e] if i in occ_e])")]),
+    ("multiform-compress-update-in-both-branches", "C16", [(MULTI, "        if abs_tol is None:\n            super(QubitOperator, self).compress()\n        else:\n            super(QubitOperator, self).compress(abs_tol)\n\n        self._update(n_qubits)", "        if abs_tol is None:\n            super(QubitOperator, self).compress()\n            self._update(n_qubits)\n        else:\n            super(QubitOperator, self).compress(abs_tol)\n            self._update(n_qubits)")]),
+    ("ionq-import-folds-angles-to-4pi", "C17", [(TION, "        parameter = gate.get(\"rotation\")\n", "        parameter = gate.get(\"rotation\")\n        if parameter is not None:\n            parameter %= 4 * 3.141592653589793\n")]),
+    ("sympy-backend-forwards-by-keyword", "C19", [(TGSYMPYB, "        super().__init__(n_shots, noise_model)", "        super().__init__(noise_model=noise_model, n_shots=n_shots)")]),
     ("angle-law-spelling", "C06", [(AU, "    angle = 2.*coef if coef >= 0. else 4*np.pi+2*coef", "    angle = 2.*coef + (0. if coef >= 0. else 4*np.pi)")]),
     ("cirq-branches-reordered", "C01", [(TCIRQ, '        elif gate_name in {"SWAP"}:\n            target_circuit.append(GATE_CIRQ[gate_name](qubit_list[gate.target[0]], qubit_list[gate.target[1]]))\n        elif gate_name in {"CSWAP"}:\n            next_gate = GATE_CIRQ[gate_name].controlled(num_controls)\n            target_circuit.append(next_gate(*control_list, qubit_list[gate.target[0]], qubit_list[gate.target[1]]))\n',
                                          '        elif gate_name in {"CSWAP"}:\n            next_gate = GATE_CIRQ[gate_name].controlled(num_controls)\n            target_circuit.append(next_gate(*control_list, qubit_list[gate.target[0]], qubit_list[gate.target[1]]))\n        elif gate_name in {"SWAP"}:\n            target_circuit.append(GATE_CIRQ[gate_name](qubit_list[gate.target[0]], qubit_list[gate.target[1]]))\n')]),
